@@ -51,6 +51,19 @@ CHECKS = {
             'connection+namespace+id with exactly the acknowledged arguments, '
             'wrong ACKs cause no callback and no contained error, call() '
             'result shaping and TimeoutError.'),
+    'C07': ('DESIGN 4/C07',
+            'Seeded search over placements of 3-8 wire peers on 2-4 real '
+            'servers (threaded or asyncio) joined by a simulated ordered '
+            'pub/sub bus (pickled messages, per-host seeded consumption lag), '
+            'optionally with a write-only manager, and histories of room '
+            'operations, disconnects, emits (with/without callback) and '
+            'ACKs issued on arbitrary hosts; immediate regime: exact '
+            'refinement against one reference room model (recipient set per '
+            'emit, never twice, rooms() on the owner, callback exactly once '
+            'on the issuer with the remote ACK); lagged regime: at most once, '
+            'only to clients addressed at some instant of the flight window '
+            '(incl. membership changes themselves in flight), exact for '
+            'unraced emits, callbacks exactly once after the final drain.'),
     'C08': ('DESIGN 4/C08',
             'Seeded search over client histories: connect(namespaces as '
             'None/str/list, auth value or callable, wait T/F) answered by a '
